@@ -27,7 +27,8 @@ cmd="${1:-}"
 case "$cmd" in
     setup)
         build
-        VERIF_RUNS=300 "$BIN" selftest determinism 60 || exit 2
+        "$BIN" selftest determinism 60 || exit 2
+        "$BIN" selftest executor 60 || exit 2
         ;;
     check)
         build
